@@ -11,13 +11,13 @@ import (
 // It is written from the ABI specification (head / tail layout) and does not use go-ethereum's abi package.
 
 type arg struct {
-	kind string // bytes32 | uint | address | address[] | uint[] | bytes
-	b32  [32]byte
-	u    *big.Int
-	addr [20]byte
+	kind  string // bytes32 | uint | address | address[] | uint[] | bytes
+	b32   [32]byte
+	u     *big.Int
+	addr  [20]byte
 	addrs [][20]byte
-	us   []*big.Int
-	bs   []byte
+	us    []*big.Int
+	bs    []byte
 }
 
 func word(u *big.Int) []byte {
